@@ -209,7 +209,67 @@ func encodeKey(key []byte, net *chaincfg.Params, compress bool, corr bool) strin
 		cases.Add(fmt.Sprintf("Enc %s %d %s %s", vh.CoqBytes(key), net.PrivateKeyID, vh.CoqBool(compress), vh.CoqStr(s)),
 			map[string]interface{}{"op": "WIF.String", "key": vh.Hex(key), "net_id": net.PrivateKeyID, "compress": compress, "impl": s})
 	}
+	// history on ONE WIF value (round 4): the exported flag is live state and every result is a fresh value --
+	// scribbling on a returned serialisation, or flipping CompressPubKey between calls, must leave String and
+	// SerializePubKey functions of (key, net, current flag) only.
+	if inRange {
+		historyOnOneValue(w, key, net, compress, s, pub, replay)
+	}
 	return s
+}
+
+func historyOnOneValue(w *bchutil.WIF, key []byte, net *chaincfg.Params, compress bool, s string, pub []byte, base map[string]interface{}) {
+	replay := map[string]interface{}{}
+	for k, v := range base {
+		replay[k] = v
+	}
+	replay["op"] = "encode-history"
+	specString := func(c bool) string {
+		full := append([]byte{net.PrivateKeyID}, key...)
+		if c {
+			full = append(full, 1)
+		}
+		return base58.Encode(append(full, sha256d(full)[:4]...))
+	}
+	specPub := func(c bool) []byte {
+		P := refBaseMult(new(big.Int).SetBytes(key))
+		if c {
+			return append([]byte{byte(2 + P.y.Bit(0))}, pad32(P.x.Bytes())...)
+		}
+		return append(append([]byte{4}, pad32(P.x.Bytes())...), pad32(P.y.Bytes())...)
+	}
+	if p, msg := vh.Catch(func() {
+		r := w.SerializePubKey()
+		for i := range r {
+			r[i] ^= 0xa5
+		}
+		pub := specPub(compress) // not the caller's slice: a memoising implementation hands out ONE buffer, scribbled on above
+		if again := w.SerializePubKey(); !bytes.Equal(again, pub) {
+			replay["steps"] = "SerializePubKey; overwrite the returned slice; SerializePubKey"
+			replay["pub"] = vh.Hex(again)
+			replay["required"] = vh.Hex(pub)
+			rep.Violate("C06:pubkey:fresh", "writing into a returned public-key serialisation changes what later calls return", replay)
+		}
+		for step, c := range []bool{!compress, compress} {
+			w.CompressPubKey = c
+			gotS, gotP := w.String(), w.SerializePubKey()
+			if wantS, wantP := specString(c), specPub(c); gotS != wantS || !bytes.Equal(gotP, wantP) {
+				replay["steps"] = fmt.Sprintf("String; SerializePubKey; then %d flag flip(s); String; SerializePubKey", step+1)
+				replay["flag_now"] = c
+				replay["string_now"] = gotS
+				replay["pub"] = vh.Hex(gotP)
+				replay["required"] = vh.Hex(wantP)
+				replay["required_string"] = wantS
+				rep.Violate("C06:pubkey:follows_flag", "after CompressPubKey is changed on a WIF value, String/SerializePubKey are not those of the current flag", replay)
+				break
+			}
+		}
+		w.CompressPubKey = compress
+	}); p {
+		replay["panic"] = msg
+		rep.Violate("C06:panic", "String/SerializePubKey panicked in a history on one WIF value", replay)
+	}
+	rep.Count("encode-history", fmt.Sprintf("h%x/%d/%v", key, net.PrivateKeyID, compress), true)
 }
 
 // decodeStr: DecodeWIF on an arbitrary string with the accept_iff and canonicity monitors.
@@ -301,7 +361,7 @@ func replayFile(path string) {
 	in := rp.Input
 	if in["op"] == "decode" {
 		decodeStr(in["string"].(string), "replay", false)
-	} else if in["op"] == "encode" {
+	} else if in["op"] == "encode" || in["op"] == "encode-history" {
 		key, _ := hex.DecodeString(in["key"].(string))
 		id := byte(in["net_id"].(float64))
 		encodeKey(key, &chaincfg.Params{PrivateKeyID: id}, in["compress"].(bool), false)
